@@ -4,6 +4,9 @@ lines (values: ints in decimal, floats as `f<hex IEEE pattern at the width of th
        bytes as lower-case hex, `-` = empty; bits as 0/1 strings, `-` = empty):
   C18 pack    <fmt> <vals>                            -> ok <hex> | err      pack(fmt, *vals).bytes
   C18 unpack  <fmt> <hex>                             -> ok <vals> | err     Bits(bytes=…).unpack(fmt)
+  C18 packd   <fmt> <vals>                            -> ok <hex> | err      as pack, float values are `d<hex float64 pattern>`
+                                                        (any Python float, NOT necessarily representable in 'e' / 'f')
+  C18 arrd    <dtype> <vals>                          -> ok <hex> | err      Array(dtype, vals).tobytes() with such floats
   C18 interp  <bits>                                  -> ok uintle,uintbe,uintne,intle,intbe,intne | err
   C18 interpf <bits>                                  -> ok floatle,floatbe,floatne | err
   C18 enc     <name> <bitlen> <val>                   -> ok <bits> | err     BitArray(<name>=val, length=bitlen)
@@ -24,8 +27,8 @@ import struct, array, sys, re, math, itertools
 GEN_CHANGED = extract_C18.write(extract_C18.GEN_DIR, extract_C18.extract(REPO))
 
 FUNCTIONAL = True
-LEVEL_TEXT = ("Lean theorems: the struct tables re-extracted from the working tree on every run (REPLACEMENTS_BE/LE/NE, PACK_CODE_SIZE, the regex alphabets, the graph of parse_single_struct_token, byteorder and the *ne aliases) equal structSpec, written from the struct documentation (standard sizes, signedness by case, byte order by prefix), for all 4 prefixes x 13 codes; the code's pack over any expanded struct format equals the concatenation of int.to_bytes of each value (base-256 digits) and unpack inverts it, for all values and all format lengths; for every whole-byte bit string the little-endian readings equal the big-endian readings of the byte-reversed bits and int.from_bytes, the native readings are sys.byteorder's; the transcribed byteswap loop equals the byte-group reversal spec for every pattern list, window and repeat setting, converts between the two encodings and is an involution; Array.extend accepts an array.array typecode iff the Array's dtype is the dtype of that code's native layout with the array's own item size, and then reads back the same values. Correspondence: 13 codes x 4 prefixes x counts 1..3 x limit values, multi-code formats, 1..8-byte contents, byteswap patterns/windows, every array typecode x dtype, against struct/array live.")
-LEVEL_NOTE = ("Trusted: Lean kernel (+propext, Classical.choice, Quot.sound); the extractor reads the tables it claims to read; struct.pack/unpack of one float (pattern bytes in the given order), bitarray tobytes/frombytes/int2ba/ba2int and slice assignment are modelled by their documented meaning; floats are carried as bit patterns (float64->16/32 rounding is C02's); the hand transcription is tied to the code by the differential run only. One known finding: '@' is treated as '=' (documented by bitstring, differs from struct's native sizes/alignment where the platform's native size or alignment is not the standard one).")
+LEVEL_TEXT = ("Lean theorems: the struct tables re-extracted from the working tree on every run (REPLACEMENTS_BE/LE/NE, PACK_CODE_SIZE, the regex alphabets, the graph of parse_single_struct_token, byteorder and the *ne aliases) equal structSpec, written from the struct documentation (standard sizes, signedness by case, byte order by prefix), for all 4 prefixes x 13 codes; the code's pack over any expanded struct format equals the concatenation of int.to_bytes of each value (base-256 digits) and unpack inverts it, for all values and all format lengths; for every whole-byte bit string the little-endian readings equal the big-endian readings of the byte-reversed bits and int.from_bytes, the native readings are sys.byteorder's; the transcribed byteswap loop equals the byte-group reversal spec for every pattern list, window and repeat setting, converts between the two encodings and is an involution; Array.extend accepts an array.array typecode iff the Array's dtype is the dtype of that code's native layout with the array's own item size, and then reads back the same values. Correspondence: 13 codes x 4 prefixes x counts 1..3 x limit values, multi-code formats, 1..8-byte contents, byteswap patterns/windows, every array typecode x dtype, float64 inputs not representable in 'e'/'f', against struct/array live.")
+LEVEL_NOTE = ("Trusted: Lean kernel (+propext, Classical.choice, Quot.sound); the extractor reads the tables it claims to read; struct.pack/unpack of one float (pattern bytes in the given order), bitarray tobytes/frombytes/int2ba/ba2int and slice assignment are modelled by their documented meaning; representable floats are carried as bit patterns; struct.pack's float64->16/32 rounding (nearest-even, OverflowError at the threshold, which float2bitstore turns into +-inf) is modelled by roundF64 and tied by the correspondence on ties, near-ties, subnormal boundaries and the band above the largest finite value; the hand transcription is tied to the code by the differential run only. One known finding: '@' is treated as '=' (documented by bitstring, differs from struct's native sizes/alignment where the platform's native size or alignment is not the standard one).")
 TECHNIQUE = "Lean 4 proof (decide over regenerated tables; induction over formats, byte lists and the byteswap loop) + differential correspondence against struct/array"
 TRUSTED = ["harness/extract_C18.py reads REPLACEMENTS_*/PACK_CODE_SIZE/byteorder/regex alphabets from the working tree",
            "CPython struct / array / int.to_bytes are the reference for byte layouts (oracle) and are modelled by their documented meaning"]
@@ -65,6 +68,8 @@ def f_of_pattern(p: int, size: int) -> float:
 
 
 def val_of_wire(tok: str, kind: str, size: int):
+    if tok.startswith("d"):                                 # a float64 pattern: any Python float
+        return struct.unpack(">d", int(tok[1:], 16).to_bytes(8, "big"))[0]
     if tok.startswith("f"):
         return f_of_pattern(int(tok[1:], 16), size)
     return int(tok)
@@ -188,6 +193,20 @@ def execute(line: str):
             s.pos = 0
             extra["readlist"] = any_err(lambda: (s.readlist(fmt), s.pos), lambda r: canon_list(r[0], sizes) + " " + str(r[1]))
             extra["listfmt"] = any_err(lambda: bitstring.pack([fmt], *vals).bytes, hexwire)
+        return out, extra
+    if op == "packd":
+        fmt = f[2]
+        _e, codes = expand(fmt)
+        vals = vals_of_wire(f[3], [STD.get(c, ("s", 1)) for c in codes])
+        out = any_err(lambda: bitstring.pack(fmt, *vals).bytes, hexwire)
+        extra["listfmt"] = any_err(lambda: bitstring.pack([fmt], *vals).bytes, hexwire)
+        extra["tokens"] = any_err(lambda: bitstring.pack(",".join(fmt[0] + c for c in codes), *vals).bytes, hexwire)
+        return out, extra
+    if op == "arrd":
+        dt = f[2]
+        vals = vals_of_wire(f[3], [("f", 8)] * (f[3].count(",") + 1))
+        out = any_err(lambda: bitstring.Array(dt, vals).tobytes(), hexwire)
+        extra["append"] = any_err(lambda: _append_all(dt, vals), hexwire)
         return out, extra
     if op == "unpack":
         fmt, data = f[2], unhex(f[3])
@@ -424,6 +443,38 @@ def oracle(line: str, out: str, extra: dict):
             if extra["listfmt"] != exp:
                 return f"pack([{fmt!r}], …) gives {extra['listfmt']}, pack({fmt!r}, …) gives {out}"
         return None
+    if op == "packd":
+        fmt = f[2]
+        e, codes = expand(fmt)
+        vals = vals_of_wire(f[3], [STD[c] for c in codes])
+        try:
+            ref = struct.pack(fmt, *vals)
+        except OverflowError:
+            return None            # struct refuses the value (beyond the rounding threshold): outside "in-range values"
+        exp = "ok " + hexwire(ref)
+        if out != exp:
+            return f"pack({fmt!r}, {vals!r}).bytes: struct.pack gives {exp}, got {out}"
+        for k in ("listfmt", "tokens"):
+            if extra[k] != exp:
+                return f"pack route {k} for {fmt!r}, {vals!r} gives {extra[k]}, struct.pack gives {exp}"
+        return None
+    if op == "arrd":
+        dt = f[2]
+        k, n, o, bl = dtype_spec(dt)
+        vals = vals_of_wire(f[3], [("f", 8)] * (f[3].count(",") + 1))
+        try:
+            if len(dt) == 2:
+                ref = struct.pack("%s%d%s" % (dt[0], len(vals), dt[1]), *vals)
+            else:
+                ref = b"".join(ref_item_bytes(v, k, n, o) for v in vals)
+        except OverflowError:
+            return None
+        exp = "ok " + hexwire(ref)
+        if out != exp:
+            return f"Array({dt!r}, {vals!r}).tobytes(): struct.pack gives {exp}, got {out}"
+        if extra["append"] != exp:
+            return f"appending one by one gives {extra['append']}, struct.pack gives {exp}"
+        return None
     if op == "unpack":
         fmt, data = f[2], unhex(f[3])
         if not GRAMMAR.match(fmt):
@@ -650,9 +701,9 @@ def oracle(line: str, out: str, extra: dict):
 def _at_region(line):
     """'@' prefix with codes whose native size / alignment differs from the standard one on this platform."""
     f = line.split(SEP)
-    if f[1] in ("pack", "unpack") and f[2].startswith("@") and GRAMMAR.match(f[2]):
+    if f[1] in ("pack", "unpack", "packd") and f[2].startswith("@") and GRAMMAR.match(f[2]):
         return struct.calcsize(f[2]) != struct.calcsize("=" + f[2][1:])
-    if f[1] in ("arr", "alist") and len(f[2]) == 2 and f[2][0] == "@" and f[2][1] in STD:
+    if f[1] in ("arr", "alist", "arrd") and len(f[2]) == 2 and f[2][0] == "@" and f[2][1] in STD:
         return struct.calcsize(f[2]) != STD[f[2][1]][1]
     return False
 
@@ -1003,9 +1054,72 @@ def gen_array(rng, big):
                 yield SEP.join(["C18", "aext", dt, pre, tc, str(isz), vals])
 
 
+def _dtok(x: float) -> str:
+    return "d%x" % int.from_bytes(struct.pack(">d", x), "big")
+
+
+def _unrepresentable(rng, size, big):
+    """float64 values that are NOT representable in the binary16 / binary32 target: exact ties and near-ties between
+    adjacent target values (even and odd lower neighbour), the subnormal boundary, half the smallest subnormal, the band
+    between the largest finite value and struct's overflow threshold (on both sides of it), far overflow; both signs."""
+    eb, mb = FLOAT_LAYOUT[size]
+    mx = ((1 << eb) - 1 << mb) - 1                                    # pattern of the largest finite value
+    cs = [0, 1, 2, 3, (1 << mb) - 2, (1 << mb) - 1, 1 << mb, (1 << mb) + 1,              # zero / subnormal / min normal
+          ((1 << (eb - 1)) - 1) << mb, (((1 << (eb - 1)) - 1) << mb) + 1, (((1 << (eb - 1)) - 1) << mb) - 1,   # around 1.0
+          mx - 2, mx - 1]
+    cs += [rng.randrange(0, mx - 1) for _ in range(40 if big else 10)]
+    out = []
+    for c in cs:
+        a, b = f_of_pattern(c, size), f_of_pattern(c + 1, size)
+        mid = (a + b) / 2                                             # exact in float64
+        out += [mid, math.nextafter(mid, a), math.nextafter(mid, b), math.nextafter(a, b), math.nextafter(b, a),
+                a + (b - a) * rng.random()]
+    M = f_of_pattern(mx, size)
+    ulp = M - f_of_pattern(mx - 1, size)
+    T = M + ulp / 2                                                   # struct's overflow threshold (rounds to inf)
+    out += [math.nextafter(M, math.inf), M + ulp / 4, (M + T) / 2, math.nextafter(T, 0.0), T, math.nextafter(T, math.inf),
+            M + ulp, 2 * M, 1e300 if size == 4 else 1e10, 1.7976931348623157e308,
+            M + ulp * rng.random() / 2, M + ulp * rng.random() / 2]
+    tiny = f_of_pattern(1, size)
+    out += [tiny / 2, math.nextafter(tiny / 2, 0.0), math.nextafter(tiny / 2, 1.0), tiny / 4, 5e-324, 2.2250738585072014e-308,
+            tiny * 1.5, tiny * 2.5]
+    for _ in range(200 if big else 30):                               # random doubles inside the target's range
+        x = math.ldexp(1 + rng.random(), rng.randint(-(1 << (eb - 1)) - mb, (1 << (eb - 1)) - 1))
+        out.append(x)
+    return out + [-x for x in out]
+
+
+def gen_unrepresentable(rng, big):
+    for c, size in (("e", 2), ("f", 4)):
+        xs = _unrepresentable(rng, size, big)
+        for i, x in enumerate(xs):
+            for e in (ENDIANS if (big or i % 3 == 0) else [ENDIANS[i % 4]]):
+                yield SEP.join(["C18", "packd", e + c, _dtok(x)])
+                if i % 2 == 0:
+                    yield SEP.join(["C18", "arrd", e + c, _dtok(x)])
+        for _ in range(600 if big else 120):                          # mixed with other codes, several values per call
+            e = rng.choice(ENDIANS)
+            k = rng.randint(1, 3)
+            fmt = e + _count_spelling(rng, c, k) + rng.choice(["", "b", "H", "d"])
+            vals = [_dtok(rng.choice(xs)) for _ in range(k)]
+            if fmt[-1] in "bH":
+                vals.append("7")
+            elif fmt[-1] == "d" and not fmt.endswith(c * k) or (fmt[-1] == "d" and c != "d" and len(expand(fmt)[1]) == k + 1):
+                vals.append(_dtok(rng.choice(xs)))
+            if len(vals) == len(expand(fmt)[1]):
+                yield SEP.join(["C18", "packd", fmt, ",".join(vals)])
+            yield SEP.join(["C18", "arrd", rng.choice([e + c, "float%s%d" % (rng.choice(["", "be", "le", "ne"]), 8 * size)]),
+                            ",".join(_dtok(rng.choice(xs)) for _ in range(rng.randint(1, 4)))])
+    for x in [0.1, 1 / 3, 1e-320, 123456.789, -2.5e-310]:               # 'd' is the identity
+        for e in ENDIANS:
+            yield SEP.join(["C18", "packd", e + "d", _dtok(x)])
+            yield SEP.join(["C18", "arrd", e + "d", _dtok(x)])
+
+
 def gen(rng, tier):
     big = tier != "quick"
     yield from gen_struct(rng, big)
+    yield from gen_unrepresentable(rng, big)
     yield from gen_interp(rng, big)
     yield from gen_enc(rng, big)
     yield from gen_bswap(rng, big)
